@@ -5,4 +5,5 @@ pub mod dec;
 pub mod esr;
 pub mod list;
 pub mod mnemonic;
+pub mod path;
 pub mod resp;
